@@ -133,6 +133,15 @@ CHECKS.update({
         design_ref="DESIGN.md#c19"),
 })
 
+CHECKS.update({
+    "C02": dict(
+        category="model_checking",
+        technique="explicit TLA+ specification (Robust.tla: outcome alphabet, resource bounds, named deviations) + TLC input-space state machine (MC_Robust: valid corpus documents -> every truncation / single-byte corruption; adversarial MsgPack headers; Nest(d); Wide(n)) + conformance: TLC-generated inputs replayed into the real loaders and converters in crash-contained children, on a normal build with a counting and capping allocator and on a clang ASan+UBSan build; every observation judged by TLC (Trace_Robust)",
+        text="The input space is exhaustive within the stated bounds: every truncation of every corpus document, every single-byte corruption over alphabets of 12-29 bytes, 1674 adversarial MsgPack headers, Nest(d) for d in {10..100000}, Wide(n); each input x 2-16 target types x both policy settings x 2-4 media (memory, stringstream, short-read streams) x 2 builds, plus converter strings (Convert::To number / bool / time_point / duration, UTF decoders) from the Unicode, numeric and chrono generators. Allowed outcomes: Completed or an exception derived from std::exception; not allowed: other exceptions, terminate, crash, hang (CPU watchdog), sanitizer report, or a largest request / total requested bytes above 256*n + 128/256 KiB (n = input length). MC_Robust's invariants (ValidAccepted, DamageExact, NestShape, AdvDeclared, PresizeLemma) check the generator and the guard lemmas of the named deviations.",
+        note="Undefined behaviour is observable only as a sanitizer report on the generated inputs; there is no coverage-guided search. UBSan is not applied to functions of namespace rapidjson; pugixml is a prebuilt library and is not instrumented. Hang = CPU time above 10 s (normal) or 60 s (ASan) plus 1 s per 10 KB of input. Stack depth is judged against the default 8 MiB stack; D0 depends on the harness's recursive target types. The save path is not covered by C02. Known findings: pre-sizing from declared counts, deep nesting into recursive user types.",
+        design_ref="DESIGN.md#c02"),
+})
+
 def main():
     props = [json.loads(l) for l in open(os.path.join(VERIF, "properties.jsonl"))]
     commits = subprocess.run(["git", "-C", "/repo", "log", "--format=%h %s"], stdout=subprocess.PIPE, text=True).stdout.splitlines()
